@@ -1108,7 +1108,7 @@ def _rand_c04(rng, tier, sc0):
             c.update({"pool": rng.choice([1, 4, 50]), "mcapa": rng.choice([8, 64, 200]), "flush_ms": rng.choice([0, 1, 5])})
         if c["mode"] == "bufflush":
             c["flush_ms"] = 1
-        if i % 6 == 0:
+        if i % 6 in (0, 1):
             c = {"rot": False, "naming": "Num", "mode": c["mode"], "cap": c.get("cap", 64), "pool": 2, "mcapa": 16,
                  "flush_ms": c.get("flush_ms", 0)}
         steps = [{"op": "Start", "append": False}]
@@ -1300,7 +1300,9 @@ def C03(tier, seed):
             pivots = [9, 12, 33, 63, 64, 65, c.get("cap", 64) - 1, c.get("cap", 64) + 1, c.get("mcapa", 32) + 1, 250]
             scens.append({"sc": len(scens) + 1, "kind": "stress", "out": out, "cfg": c, "threads": threads, "per": per,
                           "lens": [max(9, x) for x in rng.sample(pivots, 5)], "noise": rng.randrange(1, 2 ** 31),
-                          "origin": "stress"})
+                          "origin": "stress",
+                          # a format function that rejects some records after writing a part of the line
+                          "failfmt": (i % 4 == 0 and out == "file" and c["mode"] != "async")})
         res = C.run_sharded(pid, "MonC03", scens, wd, sub="conc")
         C.log(f"[C03] {nsched} TLC schedules replayed deterministically (output order must equal the specified order) + {nstress} "
               f"stress runs (2-16 threads, seeded scheduling noise; file / stdout / stderr): {res['scenarios']} executions; judged by "
